@@ -153,9 +153,17 @@ fn ip(r: &mut Rng) -> SanArg {
         SanArg::Ip(a.to_string(), b)
     } else {
         let mut b = r.bytes(16);
-        match r.below(4) {
+        match r.below(8) {
             0 => b[2..14].fill(0), // compressible
             1 => b[..15].fill(0),
+            2 => {
+                // IPv4-mapped ::ffff:a.b.c.d — still a 16-octet IPv6 address
+                b[..10].fill(0);
+                b[10] = 0xff;
+                b[11] = 0xff;
+            }
+            3 => b[..12].fill(0), // IPv4-compatible ::a.b.c.d
+            4 => b.fill(0),       // ::
             _ => {}
         }
         let mut o = [0u8; 16];
